@@ -103,6 +103,19 @@ func authAccept(fn *ssa.Function) acceptFn {
 	}
 }
 
+// comparesAuth reports whether fn holds the Authorization comparison.
+func comparesAuth(fn *ssa.Function) bool {
+	acc := authAccept(fn)
+	for _, b := range fn.Blocks {
+		if iff, ok := b.Instrs[len(b.Instrs)-1].(*ssa.If); ok {
+			if t, f := acc(iff); t || f {
+				return true
+			}
+		}
+	}
+	return false
+}
+
 func c15Auth(c *Ctx) {
 	hts := c.handlerTypes()
 	if len(hts) < 2 {
@@ -122,7 +135,7 @@ func c15Auth(c *Ctx) {
 				return
 			}
 			target := ""
-			if cal := c.staticFn(ci); cal != nil && newHelpers[cal] {
+			if cal := c.staticFn(ci); cal != nil && newHelpers[cal] && comparesAuth(cal) {
 				return // the authorization wrapper itself (looked through by guarded)
 			} else if cal != nil && cal.Signature.Recv() != nil && namedOf(cal.Signature.Recv().Type()) == t {
 				target = "dispatch " + cal.Name()
